@@ -352,6 +352,15 @@ let do_fmt (op : string) (args : string list) : string =
   | "pmdir.ser", [es] -> hex_of_bytes (serialize (entries_of es))
   | "pmdir.de", [h] -> (match deserialize pm_arith_variant (bytes_of_hex h) with Ok es -> "ok " ^ fmt_entries es | Err -> "err" | Panic -> "panic" | Overflow -> "overflow")
   | "pmdir.find", [es; t] -> (match find_tile pm_arith_variant (entries_of es) (n_of_string t) with Ok (Some e) -> fmt_entry e | Ok None -> "none" | Err -> "err" | Panic -> "panic" | Overflow -> "overflow")
+  | "vtindex", [sl] ->
+      let slot t = if t = "-" then None
+        else if t.[0] = 'h' then Some (bytes_of_hex (String.sub t 1 (String.length t - 1)))
+        else (match split_on ':' t with
+              | [l; c] -> let len = int_of_string l and cls = int_of_string c in
+                  Some (List.init len (fun i -> n_of_int (if i < 4 then (cls lsr (8 * i)) land 255 else 0)))
+              | _ -> failwith "slot") in
+      let st = write_block (List.map slot (split_on ',' sl)) in
+      String.concat "," (List.map (fun (o, l) -> string_of_n o ^ "+" ^ string_of_n l) st.w_index)
   | "vtblocks", [lv; tl] ->
       let boxes = List.map (fun t -> match split_on ':' t with [z; b] -> parse_bbox (z ^ "/" ^ String.concat "/" (split_on ',' b)) | _ -> failwith "level") (split_on ';' lv) in
       let pyr z = match List.find_opt (fun b -> b.level = z) boxes with Some b -> b | None -> (match new_empty z with Ok b -> b | _ -> failwith "empty") in
@@ -412,7 +421,7 @@ let dispatch (op : string) (args : string list) : string =
   | "vpl" -> do_vpl args
   | "vpl.render" -> do_vpl_render args
   | "csv" -> do_csv args
-  | "tileid" | "idcoord" | "pmdir.ser" | "pmdir.de" | "pmdir.find" | "vtblocks" -> do_fmt op args
+  | "tileid" | "idcoord" | "pmdir.ser" | "pmdir.de" | "pmdir.find" | "vtblocks" | "vtindex" -> do_fmt op args
   | "c12.vt" | "c12.pm" | "c12.vthdr" | "c12.pmhdr" -> do_c12 op args
   | "varint" | "svarint" | "mvt.dec" | "mvt.rt" | "mvt.merge" -> do_mvt op args
   | _ when String.length op > 5 && String.sub op 0 5 = "json." -> do_json op args
